@@ -4,6 +4,6 @@ cd /verif
 for d in seeded/*/; do
   id=$(basename $d); P=${id%%-*}
   if [ $# -gt 0 ] && ! echo " $* " | grep -q " $P "; then continue; fi
-  if ! git -C /repo apply --check $d/patch.diff 2>/dev/null; then echo "SEEDED $id: patch no longer applies to the current tree (fix commits touched the same lines)"; continue; fi
-  tools/mutant_run.sh $P $d/patch.diff reg-$id --no-replay 2>&1 | tail -1 | cut -c1-160
+  if ! git -C /repo apply --check /verif/$d/patch.diff 2>/dev/null; then echo "SEEDED $id: patch no longer applies to the current tree (fix commits touched the same lines)"; continue; fi
+  tools/mutant_run.sh $P /verif/$d/patch.diff reg-$id --no-replay 2>&1 | tail -1 | cut -c1-160
 done
